@@ -1,5 +1,6 @@
 mod benchstream;
 mod guessstream;
+mod inprocstream;
 mod metastream;
 mod opsstream;
 mod prng;
@@ -213,7 +214,10 @@ fn main() {
             }
             for k in 0..count {
                 let idx = from + k;
-                let c = if profile == "bench" {
+                let c = if profile == "inproc" {
+                    let b = inprocstream::run_case(master, idx);
+                    metastream::MetaCase { coq: b.coq, json: b.json }
+                } else if profile == "bench" {
                     let b = benchstream::run_case(master, idx);
                     metastream::MetaCase { coq: b.coq, json: b.json }
                 } else {
